@@ -9,3 +9,4 @@ import RSVerif.Properties.C04
 #print axioms RS.blocks_lanewise
 #print axioms RS.block_memory_codec
 #print axioms RS.resize_keeps_stale_blocks
+#print axioms RS.source_layout_is_block_model
